@@ -8,6 +8,7 @@
 #pragma once
 
 #include <pika/config.hpp>
+#include <pika/config/verif_hooks.hpp>
 #include <pika/coroutines/thread_enums.hpp>
 #include <pika/lock_registration/detail/register_locks.hpp>
 #include <pika/modules/errors.hpp>
@@ -83,8 +84,10 @@ namespace pika {
 
             [[maybe_unused]] util::ignore_all_while_checking ignore_lock;
 
+            PIKA_VERIF_POINT(::pika::verif::cva_before_lock, data.get());
             std::unique_lock<mutex_type> l(data->mtx_);
             ::pika::detail::unlock_guard<std::unique_lock<Mutex>> unlock(lock);
+            PIKA_VERIF_POINT(::pika::verif::cva_after_user_unlock, data.get());
 
             // The following ensures that the inner lock will be unlocked
             // before the outer to avoid deadlock (fixes issue #3608)
@@ -111,8 +114,10 @@ namespace pika {
 
             [[maybe_unused]] util::ignore_all_while_checking ignore_lock;
 
+            PIKA_VERIF_POINT(::pika::verif::cva_before_lock, data.get());
             std::unique_lock<mutex_type> l(data->mtx_);
             ::pika::detail::unlock_guard<std::unique_lock<Mutex>> unlock(lock);
+            PIKA_VERIF_POINT(::pika::verif::cva_after_user_unlock, data.get());
 
             // The following ensures that the inner lock will be unlocked
             // before the outer to avoid deadlock (fixes issue #3608)
@@ -214,8 +219,10 @@ namespace pika {
 
             [[maybe_unused]] util::ignore_all_while_checking ignore_lock;
 
+            PIKA_VERIF_POINT(::pika::verif::cva_before_lock, data.get());
             std::unique_lock<mutex_type> l(data->mtx_);
             ::pika::detail::unlock_guard<Lock> unlock(lock);
+            PIKA_VERIF_POINT(::pika::verif::cva_after_user_unlock, data.get());
 
             // The following ensures that the inner lock will be unlocked
             // before the outer to avoid deadlock (fixes issue #3608)
@@ -242,8 +249,10 @@ namespace pika {
 
             [[maybe_unused]] util::ignore_all_while_checking ignore_lock;
 
+            PIKA_VERIF_POINT(::pika::verif::cva_before_lock, data.get());
             std::unique_lock<mutex_type> l(data->mtx_);
             ::pika::detail::unlock_guard<Lock> unlock(lock);
+            PIKA_VERIF_POINT(::pika::verif::cva_after_user_unlock, data.get());
 
             // The following ensures that the inner lock will be unlocked
             // before the outer to avoid deadlock (fixes issue #3608)
@@ -296,6 +305,7 @@ namespace pika {
             auto data = data_;    // keep data alive
 
             auto f = [&data, &ec] {
+                PIKA_VERIF_POINT(::pika::verif::cva_before_lock, data.get());
                 std::unique_lock<mutex_type> l(data->mtx_);
                 data->cond_.notify_all(std::move(l), ec);
             };
@@ -305,6 +315,7 @@ namespace pika {
             {
                 [[maybe_unused]] util::ignore_all_while_checking ignore_lock;
 
+                PIKA_VERIF_POINT(::pika::verif::cva_before_lock, data.get());
                 std::unique_lock<mutex_type> l(data->mtx_);
                 if (stoken.stop_requested())
                 {
@@ -314,6 +325,7 @@ namespace pika {
                 }
 
                 ::pika::detail::unlock_guard<Lock> unlock(lock);
+                PIKA_VERIF_POINT(::pika::verif::cva_after_user_unlock, data.get());
 
                 // The following ensures that the inner lock will be unlocked
                 // before the outer to avoid deadlock (fixes issue #3608)
@@ -335,6 +347,7 @@ namespace pika {
             auto data = data_;    // keep data alive
 
             auto f = [&data, &ec] {
+                PIKA_VERIF_POINT(::pika::verif::cva_before_lock, data.get());
                 std::unique_lock<mutex_type> l(data->mtx_);
                 data->cond_.notify_all(std::move(l), ec);
             };
@@ -346,6 +359,7 @@ namespace pika {
                 {
                     [[maybe_unused]] util::ignore_all_while_checking ignore_lock;
 
+                    PIKA_VERIF_POINT(::pika::verif::cva_before_lock, data.get());
                     std::unique_lock<mutex_type> l(data->mtx_);
                     if (stoken.stop_requested())
                     {
@@ -355,6 +369,7 @@ namespace pika {
                     }
 
                     ::pika::detail::unlock_guard<Lock> unlock(lock);
+                    PIKA_VERIF_POINT(::pika::verif::cva_after_user_unlock, data.get());
 
                     // The following ensures that the inner lock will be unlocked
                     // before the outer to avoid deadlock (fixes issue #3608)
